@@ -244,3 +244,42 @@ def run_optional(prog, rep):
     if n < 30:
         raise AnalysisBroken('R-NULL-OPT: only %d optional dereferences found' % n)
     return rule
+
+
+def run_cstr_args(prog, rep):
+    """a C-string function (strlen, strcpy, strcmp, ...) applied to a pointer parameter is guarded by a null test of that parameter:
+    libhdf5 hands out null for variable-length strings that were never written, and Variant/Cell accept such pointers"""
+    sem = Sem(prog)
+    rule = rep.rule('R-NULL-CSTR', 'strlen & co. on a char* parameter only after that parameter was tested against null', floor=1)
+    CF = ('strlen', 'strcpy', 'strcmp', 'strncpy', 'strdup', 'strcat')
+    n = 0
+    for f in sorted(prog.funcs.values(), key=lambda f: (f.file, f.line)):
+        if f.body is None or not f.q.startswith('nix::'):
+            continue
+        for c in f.calls():
+            nm = (c.callee.get('name') or '')
+            if nm not in CF or c.callee.get('cls'):
+                continue
+            for a in real_args(c):
+                x = unwrap(a) if a is not None else None
+                if x is None or x.k != 'ref' or x.decl.get('kind') != 'param' or 'char' not in (x.decl.get('type') or ''):
+                    continue
+                n += 1
+                V = ('v', x.decl.get('lid'), x.decl.get('name'))
+                facts = sem.facts_at(f, c.id)
+                guarded = any((t == ('b', '==', V, ('k', None)) and pol is False) or (t == ('b', '!=', V, ('k', None)) and pol is True) or (t == V and pol is True) or
+                              (isinstance(t, tuple) and t[:2] == ('u', '!') and t[2] == V and pol is False) for (t, pol) in facts)
+                # conditional operator: value == nullptr ? 0 : strlen(value)
+                for anc in c.ancestors():
+                    if anc.k == 'cond' and len(anc.c) == 3:
+                        ct = term(unwrap(anc.c[0]))
+                        in_false = any(y is c for y in anc.c[2].walk())
+                        in_true = any(y is c for y in anc.c[1].walk())
+                        if (ct == ('b', '==', V, ('k', None)) and in_false) or (ct == ('b', '!=', V, ('k', None)) and in_true) or (ct == V and in_true):
+                            guarded = True
+                rule.check(guarded, '%s|%s(%s)' % (re.sub(r'<.*', '', f.q) + '(%s)' % ','.join(p['type'] for p in f.params)[:40], nm, x.decl.get('name')), rep.where(c), f.label(),
+                           '%s(%s) only when %s is not null' % (nm, x.decl.get('name'), x.decl.get('name')),
+                           '%s(%s) is reached with a null %s (assert() does not exist in the release build): a never-written variable-length string is a null pointer, reading such a cell crashes instead of giving ""' % (nm, x.decl.get('name'), x.decl.get('name')))
+    if n < 1:
+        raise AnalysisBroken('R-NULL-CSTR: no C-string call on a pointer parameter found (anchor: Variant::set(const char *))')
+    return rule
